@@ -279,7 +279,9 @@ Record appparams := mkApp {
   app_gs : N * N;          (* GlobalStateSchema (NumUint, NumByteSlice) *)
   app_ls : N * N;          (* LocalStateSchema *)
   app_pages : N;           (* ExtraProgramPages *)
-  app_sponsor : N          (* SizeSponsor, 0 = the creator *)
+  app_sponsor : N;         (* SizeSponsor, 0 = the creator *)
+  app_fbr : bool;          (* ForeignBoxReads  (app_params_set) *)
+  app_fba : bool           (* FamilyBoxAccess  (app_params_set) *)
 }.
 
 (* one AppResourceRecord: params and local state (its Schema) of (address, app) *)
@@ -614,6 +616,18 @@ Definition put_appparams_delta (c : cow) (a i : N) (d : delta appparams) : cow :
   set_top c (upd_apps (c_top c) (pupsert (a, i) (mkAppres d (applocal_delta c (a, i))) (l_apps (c_top c)))).
 Definition put_applocal_delta (c : cow) (a i : N) (d : delta (N * N)) : cow :=
   set_top c (upd_apps (c_top c) (pupsert (a, i) (mkAppres (appparams_delta c (a, i)) d) (l_apps (c_top c)))).
+
+(* AccountDeltas.ModifiedAccounts (ledgercore/statedelta.go) panics when a resource record of this
+   cow carries a Deleted params / holding / local-state part while the account record itself is not
+   in the same cow ("... not in base account").  Reachable in this fork: app_params_set writes the
+   params through PutAppParams only, and putAppParams copies the local-state part it finds in an
+   ancestor -- Deleted when the creator closed out of its own application earlier in the block. *)
+Definition is_ddel {A : Type} (d : delta A) : bool := match d with DDel => true | _ => false end.
+Definition mods_consistent (c : cow) : bool :=
+  forallb (fun e : (N * N) * appres => negb (is_ddel (ar_params (snd e)) || is_ddel (ar_local (snd e))) || in_mods c (fst (fst e)))
+          (l_apps (c_top c)) &&
+  forallb (fun e : (N * N) * ares => negb (is_ddel (r_params (snd e)) || is_ddel (r_holding (snd e))) || in_mods c (fst (fst e)))
+          (l_assets (c_top c)).
 
 Definition set_app_creatable (c : cow) (i : N) (v : option N) : cow :=
   set_top c (upd_acreat (c_top c) (aupsert i v (l_acreat (c_top c)))).
